@@ -25,8 +25,17 @@ theorem val_base {sp : Spec} {i : Nat} {k : Int} (h : (sp.getDef i).init? = some
     simp only [Option.getD_none]
     cases hd : sp.getDef i <;> simp_all [Def.init?]
 
-/-- the slot of a cell (not `collect`) after a transaction: the firing, or unchanged -/
-theorem stepTxn_stored_cell {sp : Spec} {ev : Events} {i : Nat} (hc : (sp.getDef i).isCell = true) :
+/-- a `hold_lazy` whose Lazy could not be read when it was made -/
+def Def.isHoldz : Def → Bool
+  | .holdz .. => true
+  | _ => false
+
+theorem Def.isHoldz_false_iff (d : Def) : d.isHoldz = false ↔ ∀ s c, d ≠ .holdz s c := by
+  cases d <;> simp [Def.isHoldz]
+
+/-- the slot of a cell (not `collect`, not `holdz`) after a transaction: the firing, or unchanged -/
+theorem stepTxn_stored_cell {sp : Spec} {ev : Events} {i : Nat} (hc : (sp.getDef i).isCell = true)
+    (hz : (sp.getDef i).isHoldz = false) :
     (stepTxn sp ev).stored.get i =
       match fire (fireTable sp ev) i with
       | some v => some v
@@ -36,8 +45,27 @@ theorem stepTxn_stored_cell {sp : Spec} {ev : Events} {i : Nat} (hc : (sp.getDef
   unfold storedUpd
   split
   · rename_i s k op h; rw [h] at hc; cases hc
+  · rename_i s c h; rw [h] at hz; cases hz
   · rw [if_pos hc]
     cases fire (fireTable sp ev) i <;> simp
+
+/-- the slot of a `holdz` after a transaction: the firing; else, when nothing is stored yet, the value
+    its Lazy's cell had at the start of the transaction (if readable); else unchanged -/
+theorem stepTxn_stored_holdz {sp : Spec} {ev : Events} {i s c : Nat} (h : sp.getDef i = .holdz s c) :
+    (stepTxn sp ev).stored.get i =
+      match fire (fireTable sp ev) i with
+      | some v => some v
+      | none => (match sp.stored.get i, sp.val c with
+        | none, some v => some v
+        | _, _ => sp.stored.get i) := by
+  have hi : i < sp.defs.size := getDef_lt sp i (by rw [h]; simp)
+  rw [stepTxn_stored, applyUpdates_stored_get, if_pos hi]
+  simp only [storedUpd, h]
+  cases hf : fire (fireTable sp ev) i with
+  | some v => simp
+  | none =>
+    simp only
+    split <;> simp_all
 
 /-- the state slot of a `collect` after a transaction -/
 theorem stepTxn_stored_collect {sp : Spec} {ev : Events} {i s : Nat} {k op : Int}
@@ -60,6 +88,7 @@ theorem stepTxn_stored_other {sp : Spec} {ev : Events} {i : Nat}
   · unfold storedUpd
     split
     · rename_i s k op h; exact absurd h (hn s k op)
+    · rename_i s c h; rw [h] at hc; cases hc
     · simp [hc]
   · rfl
 
